@@ -401,6 +401,35 @@ CHECKS = {
                       "used as a path (that is object-literal semantics, C01)",
         "assumptions": ["serde_json parses and prints JSON correctly", "the in-script reader (ser/qs) uses only typeof, Array.isArray, Object.keys, indexing, charAt/charCodeAt"],
     },
+    "C17": {
+        "engines": {"quick": ["native", "asan", "miri"], "thorough": ["native", "asan", "miri"]},
+        "optional_engines": ["miri"],
+        "crash_is_violation": True,
+        "miri_ignore_leaks": True,
+        "level": "exploration",
+        "rule": "call sequences of 200 C API calls (Miri: 12-16, no script execution) drawn by a driver from a shadow model of handle "
+                "ownership: creation of every value kind, objects / arrays / JSON documents, set / get / has / delete / keys, array push / "
+                "get / len, dup and free in any order, globals, spot checks of every live handle through the inspectors and "
+                "tsrun_json_stringify, forced collections (hundreds of short-lived handles, allocation-heavy scripts), scripts that read "
+                "host-provided globals back, native callbacks that re-enter the API (create values, parse JSON, call script functions, "
+                "throw), tsrun_call with host values, order round trips whose object responses are released right after "
+                "tsrun_fulfill_orders and followed by allocation, module runs with import requests and export tables, and contexts "
+                "freed before their values; plus one unit that passes NULL in every pointer position of every exported function. "
+                "Every sequence is non-trivial; sequences are distinct by construction",
+        "exhaustive": "NULL in each pointer parameter of each exported function, one at a time",
+        "floor": {"quick": 600, "thorough": 3000},
+        "unit_timeout": {"default": 900, "miri": 2400},
+        "technique": "runtime monitoring: AddressSanitizer and Miri on a Rust driver that calls the exported C functions through "
+                     "extern \"C\", a shadow model of handle ownership and contents as the behavioural oracle, the H1 stale-handle hook",
+        "level_text": "No sanitizer report, no crash, every returned string NUL-terminated UTF-8, every live handle keeps the content "
+                      "the host gave it across steps, collections and callbacks, scripts read host values unchanged, and NULL arguments "
+                      "come back as error results.",
+        "level_note": "C-caller undefined behaviour outside the header's contract (double free of a handle, use of a freed context) is "
+                      "not generated; the shadow model keeps containers alias-free by freezing handles that have been stored elsewhere; "
+                      "Miri runs Tree Borrows on short sequences without script execution (an interpreter start alone costs ~16 s there)",
+        "assumptions": ["the extern \"C\" declarations in harness/src/ffi.rs match src/ffi (they are checked by the compiler only through the shared struct types)",
+                        "ASan: detect_leaks=0 (the arena is freed with the heap)"],
+    },
     "C18": {
         "engines": NATIVE,
         "level": "exploration",
